@@ -166,8 +166,9 @@ def run(prog, rep, tier, repo):
                 elif k in SETLEN_OK:
                     rep.ok('set-len', key, 'listed exception: ' + SETLEN_OK[k])
                 else:
-                    rep.viol('set-len', key, 'set_len on an uninitialised buffer in a function that is not a recognised '
-                             'fully-covering kernel', site_of(c.span))
+                    # not a refutation: the loops of this function are outside the unroll+remainder idiom the coverage lemma reads
+                    rep.undecided('set-len', key, 'set_len on an uninitialised buffer; full coverage of the buffer by the following writes is not derived '
+                                  '(loop idiom outside the coverage lemma)', site_of(c.span), proof=False)
     rep.floor('set-len', 46, 'set_len call sites')
 
     # ------------------------------------------------------------------ D3 name identity of unary maps
